@@ -528,6 +528,11 @@ func (e *Engine) installSpecObjs(pkg *types.Package) {
 	mk("prefixOf", []types.Type{strT, strT}, boolT, false)
 	mk("strLt", []types.Type{strT, strT}, boolT, false)
 	mk("strLower", []types.Type{strT}, strT, false)
+	mk("hashedLen", []types.Type{anyT}, types.Typ[types.Int], false)
+	mk("hashedIsBytes", []types.Type{anyT, types.Typ[types.Int], types.NewSlice(types.Typ[types.Byte])}, boolT, false)
+	mk("hashedIsInt", []types.Type{anyT, types.Typ[types.Int], types.Typ[types.Uint64]}, boolT, false)
+	mk("radixHas", []types.Type{anyT, types.Typ[types.String]}, boolT, false)
+	mk("radixGet", []types.Type{anyT, types.Typ[types.String]}, anyT, false)
 	mk("timeBefore", []types.Type{anyT, anyT}, boolT, false)
 	mk("lastRPCErr", nil, types.Universe.Lookup("error").Type(), false)
 	if tp := e.pkgs["time"]; tp != nil {
